@@ -534,7 +534,7 @@ func script(p Plan, out *vk.Outcome) error {
 			}
 			// validity of a failing Next
 			// (the close error may itself be a context error; it is the pipe's once Close(err) has been called)
-			isClose := closeCall != 0 && closeIsErr && r.ret >= closeCall && errors.Is(r.err, closeErr)
+			isClose := closeCall != 0 && closeIsErr && r.ret >= closeCall && r.err == closeErr
 			ownCtxEnded := r.ctx != 0 && !r.ctxLive
 			switch {
 			case isClose:
@@ -546,14 +546,14 @@ func script(p Plan, out *vk.Outcome) error {
 				if closeCall == 0 || closeIsErr || r.ret < closeCall {
 					return vk.Violf("invalid-result", "Next returned End without a prior Close(nil)")
 				}
-			case errors.Is(r.err, closeErr):
+			case r.err == closeErr:
 				if closeCall == 0 || !closeIsErr || r.ret < closeCall {
 					return vk.Violf("invalid-result", "Next returned the close error without a prior Close(err)")
 				}
 			default:
 				return vk.Violf("invalid-result", "Next returned unexpected error %v", r.err)
 			}
-			if r.err == stream.End || (errors.Is(r.err, closeErr) && !(isCtxErr(r.err) && ownCtxEnded)) {
+			if r.err == stream.End || (r.err == closeErr && !(isCtxErr(r.err) && ownCtxEnded)) {
 				if firstEnd == nil {
 					firstEnd, endResult = r, r.err
 				}
@@ -575,7 +575,7 @@ func script(p Plan, out *vk.Outcome) error {
 				continue
 			}
 			switch {
-			case closeCall != 0 && closeIsErr && r.ret >= closeCall && errors.Is(r.err, closeErr):
+			case closeCall != 0 && closeIsErr && r.ret >= closeCall && r.err == closeErr:
 			case isCtxErr(r.err):
 				if r.ctx == 0 || r.ctxLive {
 					return vk.Violf("invalid-result", "%s with a live context returned %v", r.op, r.err)
@@ -584,7 +584,7 @@ func script(p Plan, out *vk.Outcome) error {
 				if rcloseCall == 0 || r.ret < rcloseCall {
 					return vk.Violf("invalid-result", "%s returned ErrClosedPipe although the receiver had not closed", r.op)
 				}
-			case errors.Is(r.err, closeErr):
+			case r.err == closeErr:
 				if !closeIsErr || r.ret < closeCall {
 					return vk.Violf("invalid-result", "%s returned the close error without Close(err)", r.op)
 				}
@@ -611,7 +611,7 @@ func script(p Plan, out *vk.Outcome) error {
 		if !inflight {
 			for _, r := range w.ops {
 				if r.op == "next" && r.call > firstEnd.ret && r.ctx == 0 && r.ret != 0 {
-					if r.err == nil || (r.err != endResult && !errors.Is(r.err, endResult)) {
+					if r.err == nil || r.err != endResult {
 						return vk.Violf("end-not-sticky", "after reporting %v a later Next returned (%d, %v)", endResult, r.got, r.err)
 					}
 				}
